@@ -24,7 +24,11 @@ RULE = ('chem cases: one real Chemical per case in one of 15 configurations (Cn 
         'negatives and a/-a pairs, observations mixture.H/S/Cn/xH/xS with and without (table) excess models.  single cases: the two '
         'single-phase mixture models on table models.  sfus cases: the real Chemical._init_data with the database look-ups replaced by '
         'case values (arguments Hfus/Tm given, None or 0; database values present or None), observed: stored _Hfus, _Tm, _Sfus or the '
-        'exception.  Integrals are opaque seeded tables keyed by (phase, a, b); log is a seeded '
+        'exception.  hist cases: 1-2 real chemicals with constant user heat-capacity / Hvap methods, then 2-7 operations from '
+        'copy, in-place change of the handle objects (method selection or add_method) + reset_free_energies, copy_models_from(other, names) '
+        'with names over Cn/Hvap/Psat/sigma, at_state, phase_ref/Tm/Tb/Hfus/Sfus setters, reset; afterwards H/S of EVERY chemical in '
+        'the store (copies included) at 3-5 (phase,T,P) are compared with the state machine of coq/C07/Rewire.v (integrals harvested '
+        'from the real handles).  Integrals are opaque seeded tables keyed by (phase, a, b); log is a seeded '
         'rational stand-in patched into free_energy.py and ideal_mixture_model.py.  Compared: kind of _H/_S after wiring '
         '(None/functor/PhaseHandle) or the exception of _init_energies, and per query the value (1e-9 relative) or exception class. '
         'non-trivial = at least one query returns a number; distinct = distinct case hash')
@@ -42,6 +46,9 @@ TRUSTED = [
     'hand-written coq/C07/Model.v: Python value/exception semantics of + - * / log, truthiness, sum([...]), SparseVector(list).dct, '
     'Functor call convention (TFunctor drops P), PhaseFunctorBuilder.__call__, PhaseTPHandle/MockPhaseTPHandle dispatch, Mixture.H/S/xH/xS '
     '(tie for these = the correspondence check)',
+    'tr/C07_rewire.py translates only WHETHER (under which guard) copy, copy_models_from, at_state, the phase_ref/Tm/Tb/Hfus/Sfus setters and '
+    'reset_free_energies rebuild the wiring from the chemical\'s own fields; WHAT each of them changes (coq/C07/Rewire.v: copy_maybe gives new '
+    'handle objects, lock_phase, reset_constant, reset_energy_constant, the Cn/Hvap branches of copy_models_from) is modelled by hand, tie = hist cases',
     'of Chemical._init_data only the statement `self._Sfus = ...` is translated; the stored _Hfus/_Tm it reads are inputs of the model',
     'excess-energy functors (Excess_*; equation-of-state departure functions) are not translated: include_excess_energies is False by default',
 ]
@@ -290,9 +297,9 @@ def build_hist_chem(spec):
     c = tmo.Chemical(f'C07h{e["n"]}_', cache=False, search_db=False, MW=16., Hf=0., S0=spec['S0'], Tm=spec['Tm'], Tb=spec['Tb'],
                      Hfus=spec['Hfus'], Sfus=spec['Sfus'], phase_ref=spec['pr'])
     for ph, v in zip('slg', spec['cn']):
-        select_const(getattr(c.Cn, ph), HCN, v)
+        getattr(c.Cn, ph).add_method(v)          # the unnamed user method ('USER_METHOD'), as users define models
     if spec['hv'] is not None:
-        select_const(c.Hvap, HHV, spec['hv'])
+        c.Hvap.add_method(spec['hv'])
     c.reset_free_energies()
     return c
 
@@ -309,6 +316,12 @@ def apply_hist_op(store, o):
         if c.locked_state: select_const(c.Cn, HCN, o[2]['slg'.index(c.locked_state)])
         else:
             for ph, v in zip('slg', o[2]): select_const(getattr(c.Cn, ph), HCN, v)
+        c.reset_free_energies()
+    elif name == 'redefcn':
+        # the documented way to change a model: add_method replaces the user method of THIS handle object
+        if c.locked_state: c.Cn.add_method(o[2]['slg'.index(c.locked_state)])
+        else:
+            for ph, v in zip('slg', o[2]): getattr(c.Cn, ph).add_method(v)
         c.reset_free_energies()
     elif name == 'muthv':
         select_const(c.Hvap, HHV, o[2]); c.reset_free_energies()
@@ -357,8 +370,10 @@ def gen_hist(rng):
         i = rng.randrange(n)
         if r < 0.22:
             ops.append(['copy', i]); n += 1; locked.append(locked[i])
-        elif r < 0.42:
+        elif r < 0.34:
             ops.append(['mutcn', i, [rng.choice(HCN) for _ in range(3)]])
+        elif r < 0.42:
+            ops.append(['redefcn', i, [rng.choice(HCN) for _ in range(3)]])
         elif r < 0.5:
             ops.append(['muthv', i, rng.choice(HHV)])
         elif r < 0.7 and n >= 2:
@@ -652,7 +667,7 @@ def coq_hist(case, out, lnc, lnd):
         n, i = o[0], f'{o[1]}%nat'
         if n == 'reset': ops.append(f'(OReset _ _ _ {i})')
         elif n == 'copy': ops.append(f'(OCopy _ _ _ {i})')
-        elif n == 'mutcn': ops.append(f'(OMutCn _ _ _ {i} {cc(o[2])})')
+        elif n in ('mutcn', 'redefcn'): ops.append(f'(OMutCn _ _ _ {i} {cc(o[2])})')
         elif n == 'muthv': ops.append(f'(OMutHv _ _ _ {i} {qo(o[2])})')
         elif n == 'copymodels': ops.append(f'(OCopyModels _ _ _ {i} {o[2]}%nat {clist([MN.get(x, "MOther") for x in o[3]])})')
         elif n == 'atstate': ops.append(f'(OAtState _ _ _ {i} {PHC[o[2]]})')
@@ -939,6 +954,7 @@ def search_cases(rng, tier):
     b = dict(a, cn=[40., 128., 75.5], hv=6010.5, pr='g')
     qs = [['H', 'l', 300., P_REF]]
     out += [{'type': 'hist', 'chems': [a], 'ops': [['copy', 0], ['mutcn', 0, [40., 128., 75.5]]], 'queries': qs, 'ln': [0., 1.]},
+            {'type': 'hist', 'chems': [a], 'ops': [['copy', 0], ['redefcn', 0, [40., 128., 75.5]]], 'queries': qs, 'ln': [0., 1.]},
             {'type': 'hist', 'chems': [a, b], 'ops': [['copymodels', 0, 1, ['Hvap']]], 'queries': qs, 'ln': [0., 1.]},
             {'type': 'hist', 'chems': [dict(a, hv=None), b], 'ops': [['copymodels', 0, 1, ['Hvap', 'Psat']]], 'queries': qs, 'ln': [0., 1.]},
             {'type': 'hist', 'chems': [a, b], 'ops': [['copymodels', 0, 1, ['Cn']], ['setsc', 0, 'Tb', 400.5], ['atstate', 1, 'g'], ['setpr', 0, 's']], 'queries': qs, 'ln': [0., 1.]}]
@@ -951,6 +967,12 @@ def search_cases(rng, tier):
     return out
 
 
+def shrink(case):
+    if case.get('type') == 'hist':
+        return vf.shrink_list(case, 'ops', oracle)
+    return case
+
+
 def finding_key(case, msg):
     return msg.split(':')[0].split('[')[0]
 
@@ -960,7 +982,17 @@ def _witness_spec(seed, pr):
             'S0': 12.25, 'has': [True, True, True], 'hvap': 'ok', 'hvap_val': 40650.}
 
 
+_HA = {'pr': 'l', 'Tm': 200., 'Tb': 350., 'Hfus': 1000., 'Sfus': 5., 'S0': 12.25, 'cn': [24., 64., 32.], 'hv': 40650.}
+_HB = dict(_HA, cn=[40., 128., 75.5], hv=6010.5, pr='g')
+_HQ = [['H', 'g', 400., P_REF], ['S', 'g', 400., 2 * P_REF], ['H', 'l', 300., P_REF], ['S', 's', 250., P_REF]]
 CORPUS = [
+    # histories aimed at every call site of the wiring (seeded changes C07-1, C07-2 and the shared user-method containers)
+    {'type': 'hist', 'chems': [_HA], 'ops': [['copy', 0], ['mutcn', 0, [40., 128., 75.5]]], 'queries': _HQ, 'ln': [0., 1.]},
+    {'type': 'hist', 'chems': [_HA], 'ops': [['copy', 0], ['redefcn', 0, [40., 128., 75.5]]], 'queries': _HQ, 'ln': [0., 1.]},
+    {'type': 'hist', 'chems': [_HA], 'ops': [['copy', 0], ['redefcn', 1, [40., 128., 75.5]], ['setsc', 0, 'Tb', 400.5]], 'queries': _HQ, 'ln': [0., 1.]},
+    {'type': 'hist', 'chems': [_HA, _HB], 'ops': [['copymodels', 0, 1, ['Hvap']]], 'queries': _HQ, 'ln': [0., 1.]},
+    {'type': 'hist', 'chems': [dict(_HA, hv=None), _HB], 'ops': [['copymodels', 0, 1, ['Hvap', 'Psat']]], 'queries': _HQ, 'ln': [0., 1.]},
+    {'type': 'hist', 'chems': [_HA, _HB], 'ops': [['copymodels', 0, 1, ['Cn']], ['redefcn', 1, [24., 24., 24.]], ['atstate', 1, 'g'], ['setpr', 0, 's']], 'queries': _HQ, 'ln': [0., 1.]},
     # the witness of mix_entropy_refuted, as a correspondence case (model and implementation must agree on it)
     {'type': 'mix', 'chems': [_witness_spec(1, 'l'), _witness_spec(2, 'l')], 'excess': False, 'Hex': [0., 0.], 'Sex': [0., 0.],
      'obs': [['S', 'l', [1., 1.], 350., P_REF], ['S', 'l', [1., 0.], 350., P_REF], ['S', 'l', [0., 1.], 350., P_REF]], 'ln': [1., 1.]},
